@@ -126,7 +126,20 @@ def _mk_chain(sname):
                         if isinstance(y, dict) and "aligned_angle" in y:
                             angmap[shim.elems(y["aligned_angle"]["alpha"])[0].args[0]] = pp
 
+        orig_hda = core.HelicityDecay.get_angle_amp
+
+        def hd_get_angle_amp(self, data, data_p, **kw):
+            nested[0] += 1
+            try:
+                real = orig_hda(self, data, data_p, **kw)
+            finally:
+                nested[0] -= 1
+            s = fresh(real.a.shape, "G")
+            calls.append(("G", self, s))
+            return s
+
         core.HelicityDecay.get_amp = hd_get_amp
+        core.HelicityDecay.get_angle_amp = hd_get_angle_amp
         core.DecayChain.get_amp_particle = get_amp_particle
         core.get_D_matrix_lambda = get_D
         try:
@@ -207,8 +220,44 @@ def _mk_chain(sname):
                        clause="Re DecayChain.get_amp == Re c_k rs sum_helicities prod_i H_i prod_j D_j, axes (top, finals of DecayGroup.outs) (%s)" % chain)
                 ctx.eq("chain%d/im" % k, tf.math.imag(G), tf.math.imag(F),
                        clause="Im DecayChain.get_amp == Im c_k rs sum_helicities prod_i H_i prod_j D_j (%s)" % chain)
+                # the pre-cached angular path (amp models cached_amp / cached_shape / base_factor): the same contraction without coupling and line shape
+                del calls[:]
+                got_a = dg.get_angle_amp(sdata)
+                Gs = [(o, s_) for kind, o, s_ in calls if kind == "G"]
+                Ds2 = [(o, s_) for kind, o, s_ in calls if kind == "D"]
+                assert len(Gs) == len(Hs) and len(Ds2) == len(Ds), (len(Gs), len(Ds2))
+                Dof2 = {}
+                for pj, sD in Ds2:
+                    Dof2[[o for o in outs if str(o) == str(pj)][0]] = sD
+                assert set(Dof2) == set(Dof)
+                want2 = np.empty(shape, dtype=object)
+                for oidx in np.ndindex(*shape):
+                    env = {chain.top: oidx[0]}
+                    prime = {}
+                    for j, v in zip(outs, oidx[1:]):
+                        if j in Dof2:
+                            prime[j] = v
+                        else:
+                            env[j] = v
+                    acc = tm.C(tm.ZERO, tm.ZERO)
+                    for sidx in itertools.product(*[range(hel[p_]) for p_ in summed]):
+                        env.update(zip(summed, sidx))
+                        term = tm.C(tm.ONE, tm.ZERO)
+                        for dec, s_ in Gs:
+                            term = _cmul(term, s_.a[(0, env[dec.core], env[dec.outs[0]], env[dec.outs[1]])])
+                        for j, s_ in Dof2.items():
+                            term = _cmul(term, s_.a[(0, env[j], prime[j])])
+                        acc = acc + term
+                    want2[oidx] = acc
+                ga2 = got_a.a.reshape(got_a.a.shape[1:]) if got_a.a.shape[0] == 1 else got_a.a
+                assert ga2.shape == want2.shape, (ga2.shape, want2.shape)
+                G2, F2 = shim.STensor(ga2), shim.STensor(want2)
+                ctx.eq("chain%d/angle_amp.re" % k, tf.math.real(G2), tf.math.real(F2),
+                       clause="Re DecayChain.get_angle_amp == Re sum_helicities prod_i G_i prod_j D_j with the SAME index convention as get_amp (alignment matrix D_j[l_j, l'_j]) (%s)" % chain)
+                ctx.eq("chain%d/angle_amp.im" % k, tf.math.imag(G2), tf.math.imag(F2), clause="Im DecayChain.get_angle_amp == Im sum_helicities prod_i G_i prod_j D_j (%s)" % chain)
         finally:
             core.HelicityDecay.get_amp = orig_hd
+            core.HelicityDecay.get_angle_amp = orig_hda
             core.DecayChain.get_amp_particle = orig_ap
             core.get_D_matrix_lambda = orig_D
             dg.set_used_chains(list(range(len(dg.chains))))
@@ -289,8 +338,8 @@ _ASSUME = ["callee contracts by substitution: vertex amplitudes, line shapes and
            "structure catalogue of vt/iface/models.py without identical-particle symmetrisation (s000, s110, sh00, s1hh, f4); data dictionary keys from the real cal_angle",
            "A-OPS: shim models of the tensor ops; opt_einsum path as returned (any path: einsum.einsum/any_index_order)"]
 for _s in STRUCTS:
-    group(["C03", "C05"], "amp.assembly/chain/%s" % _s,
-          ["amp.core:DecayChain.get_amp", "amp.core:DecayChain.get_cp_amp_total", "amp.core:DecayChain.get_amp_total", "einsum:einsum", "einsum:tensor_einsum_reduce_sum",
+    group(["C03", "C05", "C01"], "amp.assembly/chain/%s" % _s,
+          ["amp.core:DecayChain.get_amp", "amp.core:DecayChain.get_angle_amp", "amp.core:DecayGroup.get_angle_amp", "amp.core:DecayChain.get_cp_amp_total", "amp.core:DecayChain.get_amp_total", "einsum:einsum", "einsum:tensor_einsum_reduce_sum",
            "amp.core:DecayGroup.get_amp", "variable:Variable.__call__"],
           env="shim", kind="P", no_native=True, cost=4, assumes=_ASSUME, bound="structure %s, every chain" % _s)(_mk_chain(_s))
     group(["C03", "C01"], "amp.assembly/group/%s" % _s,
